@@ -263,7 +263,7 @@ pub fn check(depth: u8, h: u64, delta: u8, use_free_fns: bool, part: &mut Part) 
 
 pub fn run(ctx: &Ctx) -> i32 {
   let quick = ctx.quick();
-  let d_exh: u8 = if quick { 3 } else { 5 };
+  let d_exh: u8 = if quick { 3 } else { 6 };
   let max_delta: u8 = if quick { 4 } else { 6 };
   let mut jobs: Vec<(u8, u64, u64, bool)> = vec![];
   for d in 0..=d_exh {
